@@ -33,6 +33,10 @@ type Job struct {
 	BudgetSec int      `json:"budget_sec,omitempty"`
 	Rule      string   `json:"rule,omitempty"`
 	MaxViol   int      `json:"max_viol,omitempty"`
+	// mode "history": execute the scenarios with these indices of the explore sequence (SeedBase, Profiles,
+	// Thorough), in this order, in this one process; the last one is the one expected to violate Rule / Sig
+	Indices []int  `json:"indices,omitempty"`
+	Sig     string `json:"sig,omitempty"`
 }
 
 type Found struct {
@@ -41,6 +45,18 @@ type Found struct {
 	V        Violation `json:"violation"`
 	Scenario *Scenario `json:"scenario"`
 	Digest   string    `json:"digest"`
+	// Hist: how to regenerate every scenario this worker process executed before this one (explore mode)
+	Hist *HistRef `json:"hist,omitempty"`
+}
+
+// HistRef names the explore-mode sequence a scenario was part of: scenarios Start, Start+Stride, ..., Index.
+type HistRef struct {
+	SeedBase uint64   `json:"seed_base"`
+	Profiles []string `json:"profiles"`
+	Start    int      `json:"start"`
+	Stride   int      `json:"stride"`
+	Index    int      `json:"index"`
+	Thorough bool     `json:"thorough"`
 }
 
 type WorkerOut struct {
@@ -233,6 +249,8 @@ func RunWorker(t *testing.T) {
 			}
 		}
 		writeJSON(job.Out, out)
+	case "history":
+		historyMode(t, &job)
 	case "gen":
 		writeJSON(job.Out, map[string]any{"scenario": Gen(job.Profiles[0], job.SeedBase, job.Thorough)})
 	default:
@@ -343,7 +361,8 @@ func exploreMode(t *testing.T, job *Job) {
 			seenSig[v.Sig] = true
 			sc := *scn
 			sc.Decisions = append([]int(nil), r.Sim.T.Rec...)
-			out.Found = append(out.Found, Found{Seed: seed, Profile: prof, V: v, Scenario: &sc, Digest: r.Sim.Digest()})
+			out.Found = append(out.Found, Found{Seed: seed, Profile: prof, V: v, Scenario: &sc, Digest: r.Sim.Digest(),
+				Hist: &HistRef{SeedBase: job.SeedBase, Profiles: job.Profiles, Start: job.Start, Stride: stride, Index: i, Thorough: job.Thorough}})
 		}
 	}
 	out.WallS = time.Since(t0).Seconds()
@@ -365,6 +384,9 @@ type ReplayFile struct {
 	Seed     uint64    `json:"seed"`
 	Scenario *Scenario `json:"scenario"`
 	EventLog []string  `json:"event_log,omitempty"`
+	// History: scenarios to execute before Scenario in the same process. The violation depends on state of
+	// the library that outlives a transport (package-level variables): one scenario alone does not show it.
+	History  []*Scenario `json:"history,omitempty"`
 	Crash    string    `json:"crash,omitempty"` // process-level failure (fatal error / panic in a detached goroutine)
 	Race     bool      `json:"race,omitempty"`  // needs the -race build
 }
@@ -398,6 +420,9 @@ func replayMode(t *testing.T, job *Job) {
 			Exec(t, rf.Scenario)
 		}
 	}
+	for _, h := range rf.History {
+		Exec(t, h)
+	}
 	r, jd := Exec(t, rf.Scenario)
 	res := map[string]any{"digest": r.Sim.Digest(), "want_digest": rf.Digest, "reproduced": false}
 	if v := findViolation(jd, rf.Property, rf.Rule, rf.Sig); v != nil {
@@ -417,6 +442,30 @@ func replayMode(t *testing.T, job *Job) {
 		trace = append(trace, e.String())
 	}
 	res["event_log"] = trace
+	writeJSON(job.Out, res)
+}
+
+// historyMode executes a chosen sub-sequence of an explore-mode sequence in one process and reports whether
+// the last scenario shows the violation; with the scenarios themselves, so that the driver can write a
+// self-contained replay file.
+func historyMode(t *testing.T, job *Job) {
+	var scns []*Scenario
+	var r *Run
+	var jd *Judged
+	for _, i := range job.Indices {
+		scn := Gen(job.Profiles[i%len(job.Profiles)], mix(job.SeedBase, uint64(i)), job.Thorough)
+		scns = append(scns, scn)
+		writeProgress(job.Progress, scn, i)
+		r, jd = Exec(t, scn)
+	}
+	res := map[string]any{"reproduced": false}
+	if r != nil {
+		res["digest"] = r.Sim.Digest()
+		if v := findViolation(jd, job.Prop, job.Rule, job.Sig); v != nil {
+			res["reproduced"], res["seq"], res["msg"] = true, v.Seq, v.Msg
+			res["scenarios"] = scns
+		}
+	}
 	writeJSON(job.Out, res)
 }
 
